@@ -13,7 +13,7 @@ from ..cfg import cfg_of
 from ..model import own_nodes
 from ..values import pattern, match, match_any, find, contains, show, subterms
 from ..domains import polarity, POS, NEG, ZERO
-from .base import obligation, src, callee_name, if_branches, split_if
+from .base import obligation, src, callee_name, if_branches, split_if, guard_equivalents
 from .C04 import pattern_term, returns, enclosing_loop, _inside
 
 M = 'elfi.methods.mcmc'
@@ -708,8 +708,9 @@ def c09_i(ctx):
                 (pol and t == ('name', v)) or
                 ((not pol) and match_any(t, ('{} == 0'.format(v), '{} <= 0'.format(v),
                                              '{} < 1'.format(v))) is not None)
-                for (t, pol, _) in [(ex.raw(tast), pol, tast)
-                                    for (_t, pol, tast) in ctx.guards(f, stmt)])
+                for (t, pol, _) in [(t2, p2, tast)
+                                    for (_t, pol0, tast) in ctx.guards(f, stmt)
+                                    for (t2, p2) in guard_equivalents(ex.raw(tast), pol0)])
             if guarded:
                 ctx.ok(f, 'division by `{}` under a positivity guard'.format(v), src(d)[:60],
                        fn=f, node=d)
